@@ -374,7 +374,14 @@ def _iter(I, args, kw):
     it = _interp()
     v = args[0]
     if isinstance(v, it.IterV): return v
-    return it.IterV(I.iterate(v))
+    r = it.IterV(I.iterate(v))
+    if isinstance(v, list):
+        r.live = v                       # a list iterator reads the live list
+    elif isinstance(v, dict):
+        r.live_dict = v
+    elif isinstance(v, KeysView) and isinstance(v.m, dict):
+        r.live_dict = v.m
+    return r
 
 
 @builtin('next')
@@ -901,6 +908,23 @@ def seq_find(I, s, sub, start=0):
     return mk(r)
 
 
+def seq_rfind(I, s, sub):
+    """bytes.rfind(sub) -> SInt r with the defining axioms (last occurrence, -1 if there is none)"""
+    st = I.st
+    if s.items is not None and sub.items is not None and all(isinstance(x, int) for x in s.items + sub.items):
+        return bytes(s.items).rfind(bytes(sub.items))
+    if sub.items is None: raise Unsupported('rfind of symbolic-length needle')
+    m = len(sub.items)
+    n = zint(s.n) if not isinstance(s.n, int) else z3.IntVal(s.n)
+    r = z3.Int(st.fresh_name('rfind'))
+    def match(p):
+        return z3.And(*[s.zat(mk(p + j)) == zint(sub.items[j]) for j in range(m)]) if m else z3.BoolVal(True)
+    k = z3.Int(st.fresh_name('k'))
+    st.assume(z3.Or(r == -1, z3.And(r >= 0, r + m <= n, match(r))))
+    st.assume(z3.ForAll([k], z3.Implies(z3.And(k >= 0, k + m <= n, k > r), z3.Not(match(k)))))
+    return mk(r)
+
+
 def native_method(I, recv, name, args, kw):
     it = _interp()
     st = I.st
@@ -1144,6 +1168,8 @@ def native_method(I, recv, name, args, kw):
             raise Unsupported('list(sym).%s' % name)
         if name == 'find':
             return seq_find(I, s, to_seq(args[0]), args[1] if len(args) > 1 else 0)
+        if name == 'rfind' and len(args) == 1:
+            return seq_rfind(I, s, to_seq(args[0]))
         if name == 'index':
             r = seq_find(I, s, to_seq(args[0]), args[1] if len(args) > 1 else 0)
             if st.decide(zint(r) < 0): raise Raised('ValueError')
